@@ -256,6 +256,15 @@ theorem ds_sites_formatted (site : String × String) (h : site ∈ dsSites) :
 
 example : dsSites.length ≥ 40 := by decide
 
+/-- **fl_sites_rounded.**  Every assignment to an attribute of value representation FL (GraphicData of SCOORD / SCOORD3D / graphic
+objects, bounding boxes, anchor points, relative opacity; 7 sites) rounds the value to a 32-bit float first, so the in-memory element
+equals what is written and read back.  (All 7 were `raw` on the pinned tree.) -/
+theorem fl_sites_rounded (site : String × String) (h : site ∈ flSites) : site.2 = "rounded" := by
+  have hk : (flSites.all fun x => x.2 == "rounded") = true := by decide
+  simpa using List.all_eq_true.mp hk site h
+
+example : flSites.length ≥ 7 := by decide
+
 /-! non-vacuity: the guards accept ordinary values and refuse the witnesses of the two repaired defects -/
 example : checkCodeString "DERIVED".toList = .ok () := by decide
 example : checkCodeString "ABC\n".toList = .error .value := by decide
